@@ -262,4 +262,14 @@ def main(argv=None):
 
 
 if __name__ == "__main__":
-    sys.exit(main())
+    try:
+        rc = main()
+    except SystemExit:
+        raise
+    except BaseException as ex:  # noqa: BLE001 - a crashing driver is a broken check, never a verdict
+        import traceback
+
+        traceback.print_exc()
+        print(f"HARNESS-ERROR driver crashed: {type(ex).__name__}: {ex}")
+        rc = 3
+    sys.exit(rc)
